@@ -121,7 +121,7 @@ _FORCED = {}
 
 def _forced_value(assertions, when, var, what):
     """the value that `assertions` force on the integer unknown `var` whenever `when` holds: decided by the solver
-    (a model of assertions /\ when gives the candidate c; assertions /\ when /\ var != c must be unsatisfiable),
+    (a model of `assertions and when` gives the candidate c; `assertions and when and var != c` must be unsatisfiable),
     not read from the syntactic shape of the assertions -- an If(..) rewritten as two implications is the same rule"""
     # (cached with the formulas themselves: z3 recycles the ids of freed terms, an id alone is no key)
     key = (tuple(f.get_id() for f in assertions), when.get_id(), var.get_id())
@@ -149,6 +149,19 @@ def past_point(task):
     assertions force on its start when it is not scheduled.  From the user's point of view the placement of an
     unscheduled task is existential; this is only the witness"""
     return _forced_value(list(task.get_z3_assertions()), z3.Not(T(task._scheduled)), task._start, f"task {task.name}")
+
+
+def parking(task):
+    """past_point(task), or None when the task's assertions do not force one instant (another -- equally good --
+    encoding of "not scheduled"): the callers then leave the placement of the unscheduled task to the solver"""
+    try:
+        return past_point(task)
+    except ValueError:
+        return None
+
+
+def unscheduled_unknowns(task):
+    return [x for x in (task._start, task._end, getattr(task, "_duration", None)) if isinstance(x, z3.ExprRef) and z3.is_const(x) and x.decl().kind() == z3.Z3_OP_UNINTERPRETED]
 
 
 def unselected_point(task, worker):
